@@ -288,6 +288,9 @@ def c01(tier):
     ix = gen_writer.interaction_programs(sd * 7919 + 1, "ix")
     rep.notes["interaction_rows"] = len(ix)
     scs += ix
+    # names and comments at the 16-bit length limit through every entry-creating call: what is accepted must read back whole, what
+    # cannot be represented (a 65 535-byte directory name that gets a '/' appended) must be refused
+    scs += [dict(s_, sc="lim-" + s_["sc"]) for s_ in boundary_scenarios() if "-65535-" in s_["sc"] or "-65534-" in s_["sc"]]
     run_writer_programs(rep, wd, scs, "roundtrip")
     cmp_events = [e for e in vlib.read_ndjson(os.path.join(wd, "roundtrip-trace.ndjson")) if e.get("ev") == "Compare"]
     rep.notes["finish_vs_drop_comparisons"] = {"made": len(cmp_events), "both_completed": sum(1 for e in cmp_events if e.get("both"))}
@@ -580,7 +583,7 @@ def c13(tier):
     scs = []
     for i in range(n):
         kind = ["writer", "writer", "refzip", "refzip-prefix", "refzip-z64", "cpython", "cpython-dd", "cpython-z64",
-                "cpython-fcomment", "empty"][i % 10]
+                "cpython-fcomment", "empty", "writer", "refzip-enc"][i % 12]
         ops = []
         if kind == "writer":
             s = g.valid_archive("x", nmax=5, enc_ok=False, end="Finish")
@@ -597,7 +600,18 @@ def c13(tier):
                 ents = [{"name": b"z/one", "method": 8, "data": b"one " * 30, "z64": {"usize", "csize"}, "lz64": True},
                         {"name": b"z/two", "method": 0, "data": b"22", "z64": {"off"}}]
                 fb, fv = refzip.build({"entries": ents, "z64end": True, "comment": b"forced zip64"})
-            ops.append({"op": "Load", "hex": fb.hex()})
+            lo = {"op": "Load", "hex": fb.hex()}
+            if kind == "refzip-enc":
+                # encrypted entries among the old ones (the property promises nothing about their content, but the archive written
+                # around them must stay well-formed - header fields of old records re-emitted as they were - and they must still decrypt)
+                ents = [{"name": b"e/plain", "method": 8, "data": b"plain " * 30},
+                        {"name": b"e/aes2", "method": 8, "data": b"aes two " * 20, "enc": ("aes", 2, 3, b"base-pw")},
+                        {"name": b"e/zc", "method": 0, "data": b"zipcrypto stored", "enc": ("zc", b"base-pw")},
+                        {"name": b"e/aes1", "method": 0, "data": b"aes one", "enc": ("aes", 1, 1, b"base-pw"), "cextra": [(0xbeef, b"x")], "aes_first": i % 2 == 0}]
+                g.r.shuffle(ents)
+                fb, fv = refzip.build({"entries": ents, "comment": b"with encrypted entries"})
+                lo = {"op": "Load", "hex": fb.hex(), "pws": [b"base-pw".hex()]}
+            ops.append(lo)
         else:
             ops.append({"op": "Load", "hex": cpython_base(g.r, {"cpython": "plain", "cpython-dd": "dd", "cpython-z64": "z64",
                                                                  "cpython-fcomment": "fcomment"}[kind]).hex()})
@@ -2005,6 +2019,40 @@ def c20(tier):
                 {"h": 1, "op": "open", "i": 0}, rd(0, 1), {"h": 0, "op": "stat"}])
     for k, steps in enumerate(fam):
         scs.append({"sc": "failopen-%d" % k, "hex": eb.hex(), "handles": 3, "steps": steps})
+    # the property differentially, on archives with DAMAGED entries and with a wrong password that passes the one-byte check: each
+    # handle's observations (open result, data start, sizes, read results incl. checksum errors, length and CRC of what was
+    # delivered) must equal those of the same steps on an archive opened afresh and used alone (CAlone events) - e.g. a checksum
+    # error a handle would get alone must not disappear because another handle (a raw reader, another password) read the entry first
+    dz = bytes(rnd.randrange(256) for _ in range(64))
+    dents = [{"name": b"stored-damaged", "method": 0, "data": dz},
+             {"name": b"deflate-badcrc", "method": 8, "data": b"deflated, declared CRC is wrong " * 4, "crc": 0x12345678},
+             {"name": b"zc-stored", "method": 0, "data": b"zipcrypto stored entry, long enough", "enc": ("zc", pw)},
+             {"name": b"aes1-badcrc", "method": 0, "data": b"ae-1 with a wrong crc", "enc": ("aes", 1, 1, pw), "crc": 0x0badc0de},
+             {"name": b"intact", "method": 8, "data": b"intact entry " * 10}]
+    db, dv = refzip.build({"entries": dents})
+    db = bytearray(db)
+    db[dv["entries"][0]["dstart"] + 5] ^= 0x40                    # one flipped bit in the stored entry's data
+    db = bytes(db)
+    e2 = dv["entries"][2]
+    hdr12, want = db[e2["dstart"]:e2["dstart"] + 12], (e2["crc"] >> 24) & 0xFF
+    collide = next(c for c in (b"wrong-%d" % k for k in range(100000)) if zc_check(c, hdr12, want))
+    kinds = {0: [{"raw": True}, {}], 1: [{"raw": True}, {}], 2: [{"raw": True}, {"pw": R, "pwkind": "right"}, {"pw": collide.hex(), "pwkind": "collide"}, {"pwkind": "none"}],
+             3: [{"raw": True}, {"pw": R, "pwkind": "right"}, {"pw": W, "pwkind": "wrong"}], 4: [{"raw": True}, {}]}
+    nd = 0
+    import itertools
+    for i, ks in kinds.items():
+        for perm in itertools.permutations(range(len(ks)), min(3, len(ks))):
+            for twice in (False, True):
+                steps = []
+                for h, ki in enumerate(perm):
+                    steps += [dict(ks[ki], h=h, op="open", i=i), {"h": h, "op": "readall"}]
+                if twice:      # every handle once more, in reverse order
+                    for h, ki in reversed(list(enumerate(perm))):
+                        steps += [dict(ks[ki], h=h, op="open", i=i), {"h": h, "op": "readall"}]
+                steps += [{"h": 0, "op": "open", "i": 4}, {"h": 0, "op": "readall"}]
+                scs.append({"sc": "alone-%d-%s-%d" % (i, "".join(map(str, perm)), twice), "hex": db.hex(), "handles": len(perm), "differential": True, "steps": steps})
+                nd += 1
+    rep.notes["differential_alone_scenarios"] = nd
     # clones taken MID-LIFE (Clones!CloneFrom), from readers whose Clone keeps the position (like a Cursor), restarts at 0 (like a
     # reader that reopens its file) or sits at the end: after handle g read entry i (none of it, part, all of it - then g's reader
     # stands exactly on the next local header), handle h becomes a clone of g and opens entry j first
@@ -2225,6 +2273,14 @@ def c11(tier):
     inner, _ = refzip.build({"entries": [{"name": b"inner-a", "method": 0, "data": b"inner data a"}, {"name": b"inner-b", "method": 0, "data": b"bb"}]})
     nested, _ = refzip.build({"entries": [{"name": b"outer.txt", "method": 8, "data": b"outer " * 20}, {"name": b"nested.zip", "method": 0, "data": inner}]})
     rscs.append({"sc": "r-nested", "hex": nested.hex(), "via": "seek", "epw": []})
+    # every entry (the last one too) has extra data, a file comment and a non-ASCII name: a failing read of any variable-length part
+    # of a central record must surface, not come back as a record with that part missing
+    xz, _ = refzip.build({"entries": [{"name": "x/é-%d".encode() % k, "utf8": True, "method": (0, 8, 12)[k], "data": b"extra %d " % k * (k + 3),
+                                       "cextra": [(0xbeef, b"central-%d" % k), (0x5455, b"\x01" + bytes(4))], "lextra": [(0xcafe, b"local-%d" % k)],
+                                       "fcomment": b"comment of entry %d" % k, "z64": {"usize"} if k == 2 else set()} for k in range(3)],
+                          "comment": b"archive comment"})
+    rscs.append({"sc": "r-extras", "hex": xz.hex(), "via": "seek", "epw": []})
+    rscs.append({"sc": "r-extras-stream", "hex": xz.hex(), "via": "stream", "epw": []})
     for s in rscs:
         s["faults"] = [None]
     pfile, tfile = os.path.join(wd, "rbase.ndjson"), os.path.join(wd, "rbase-trace.ndjson")
